@@ -282,6 +282,13 @@ class SymReal:
 # --------------------------------------------------------------------------- engine
 
 
+def _z3_unescape(s):
+    """z3 prints non-printable characters of a string value as \\u{hex}."""
+    import re
+
+    return re.sub(r"\\u\{([0-9a-fA-F]+)\}", lambda m: chr(int(m.group(1), 16)), s)
+
+
 class Engine:
     """Symbolic back end."""
 
@@ -467,6 +474,8 @@ class Engine:
                 out[k] = True
             elif z3.is_false(val):
                 out[k] = False
+            elif z3.is_string_value(val):
+                out[k] = _z3_unescape(val.as_string())
             else:
                 out[k] = str(val)
         return out
